@@ -218,7 +218,7 @@ class Spy:
         Spy.calls.append(machine)
 
 
-def shallow_twin(case):
+def shallow_twin(case, pid="C16"):
     """A shallow copy (copy.copy) of a machine is one more instance: its triggers drive the copy, a listener attached to it is
     invoked by it alone - not by the machine it was copied from, nor by later deepcopy / pickle clones of that machine."""
     import pickle
@@ -238,7 +238,7 @@ def shallow_twin(case):
                 getattr(base, ev)  # every trigger has been looked at on the original
             twin = copy.copy(base)
             if twin is base:
-                return outcome_fail("C16:shallow-twin", "copy.copy(machine) is the machine itself", case), set()
+                return outcome_fail(pid + ":shallow-twin", "copy.copy(machine) is the machine itself", case), set()
             Spy.calls = []
             twin.add_listener(Spy())
             fired = 0
@@ -252,9 +252,9 @@ def shallow_twin(case):
                     continue
                 fired += 1
                 if len(Spy.calls) == n0:
-                    return outcome_fail("C16:shallow-twin", f"{style} {ev!r} on a shallow copy ran a transition, but the listener attached to that copy was not called (the event went elsewhere)", case), set()
+                    return outcome_fail(pid + ":shallow-twin", f"{style} {ev!r} on a shallow copy ran a transition, but the listener attached to that copy was not called (the event went elsewhere)", case), set()
             if any(m is not twin for m in Spy.calls):
-                return outcome_fail("C16:shallow-twin", "a listener attached to a shallow copy was called by another machine", case), set()
+                return outcome_fail(pid + ":shallow-twin", "a listener attached to a shallow copy was called by another machine", case), set()
             n0 = len(Spy.calls)
             for ev in tw["on_base"]:
                 try:
@@ -269,7 +269,7 @@ def shallow_twin(case):
                     pass
             if len(Spy.calls) != n0:
                 who = "the original" if any(m is base for m in Spy.calls[n0:]) else f"a {tw['how']} clone of the original"
-                return outcome_fail("C16:shallow-twin", f"a listener attached to a shallow copy only was called by {who}", case), set()
+                return outcome_fail(pid + ":shallow-twin", f"a listener attached to a shallow copy only was called by {who}", case), set()
     finally:
         Spy.calls = []
         dispose(r)
@@ -294,6 +294,16 @@ def flipped(spec):
             g["async"] = not any_async
     s.pop("style", None)
     return s
+
+
+@st.composite
+def twin_case(draw):
+    from ..core import cbid_of
+
+    ts = draw(gen.machine_spec(max_states=3, max_extra=3, providers=("machine",), async_mode="none", sends=False, attach=("conv", "name"), guard_kinds=("method",)))
+    evs = st.lists(st.sampled_from(ts["events"]), max_size=4)
+    return {"spec": ts, "true_guards": [cbid_of(g) for g in ts["guards"] if draw(st.booleans())], "how": draw(st.sampled_from(["deepcopy", "pickle"])),
+            "on_twin": [(e, draw(st.sampled_from(["method", "send"]))) for e in draw(evs)], "on_base": draw(evs), "on_clone": draw(evs)}
 
 
 @st.composite
@@ -345,14 +355,7 @@ def cases(draw, tier):
     if draw(st.integers(0, 3)) == 0:
         fs = [draw(gen.machine_spec(max_states=3, max_extra=2, providers=("machine",), async_mode="none", sends=False, attach=("conv", "name"))) for _ in range(2)]
         family = {"specs": fs, "order": draw(st.permutations(["Doc", "Legal", "Memo"]))}
-    twin = None
-    if draw(st.integers(0, 3)) == 0:
-        ts = draw(gen.machine_spec(max_states=3, max_extra=3, providers=("machine",), async_mode="none", sends=False, attach=("conv", "name"), guard_kinds=("method",)))
-        evs = st.lists(st.sampled_from(ts["events"]), max_size=4)
-        from ..core import cbid_of
-
-        twin = {"spec": ts, "true_guards": [cbid_of(g) for g in ts["guards"] if draw(st.booleans())], "how": draw(st.sampled_from(["deepcopy", "pickle"])),
-                "on_twin": [(e, draw(st.sampled_from(["method", "send"]))) for e in draw(evs)], "on_base": draw(evs), "on_clone": draw(evs)}
+    twin = draw(twin_case()) if draw(st.integers(0, 3)) == 0 else None
     return {"spec": spec, "cfg": cfg, "history": hist, "family": family, "twin": twin, "noise_specs": [flipped(spec), other], "driver_listener": not is_async, "sib_instance_cbs": draw(st.booleans()), "sib_late_as_ctor": draw(st.booleans()), "shared_target": draw(st.booleans())}
 
 
